@@ -8,7 +8,7 @@ Lean model parses (`spec_sx`).  Types are tuples:
   | ("ann", t, mh)
   mh: ("intRange", lo, hi) | ("intList", [..]) | ("varRange", [names]) | ("listSize", lo, hi)
     | ("strSize", lo, hi, [chars]) | ("interval", a, b, c) | "floatRange" | ("floatList", n)
-    | ("depIntRangeLo", field, hi) | ("depIntRangeHi", lo, field) | ("depListSize", field)
+    | ("depIntRangeLo", field, hi) | ("depIntRangeHi", lo, field) | ("depListSize", field) | ("depIntRangeSpan", widthField, loField)
 """
 from __future__ import annotations
 
@@ -60,7 +60,7 @@ def mh_sx(mh):
     if isinstance(mh, str):
         return mh
     k = mh[0]
-    if k in ("intRange", "listSize", "interval", "floatList", "depIntRangeLo", "depIntRangeHi", "depListSize", "depVarFrom"):
+    if k in ("intRange", "listSize", "listSizeNoOps", "interval", "floatList", "depIntRangeLo", "depIntRangeHi", "depIntRangeSpan", "depListSize", "depVarFrom"):
         return list(mh)
     if k in ("intList", "varRange"):
         return [k, list(mh[1])]
@@ -120,6 +120,10 @@ def py_mh(mh):
         return VarRange(list(mh[1]))
     if k == "listSize":
         return ListSizeBetween(mh[1], mh[2])
+    if k == "listSizeNoOps":
+        # same generator, no list-specific mutation / crossover operators (the model reads both as `listSize`)
+        from geneticengine.grammar.metahandlers.lists import ListSizeBetweenWithoutListOperations
+        return ListSizeBetweenWithoutListOperations(mh[1], mh[2])
     if k == "strSize":
         return StringSizeBetween(mh[1], mh[2], list(mh[3]))
     if k == "interval":
@@ -130,6 +134,9 @@ def py_mh(mh):
         return Dependent(mh[1], _dep_int_lo(mh[2]))
     if k == "depIntRangeHi":
         return Dependent(mh[2], _dep_int_hi(mh[1]))
+    if k == "depIntRangeSpan":
+        # two dependencies, NAMED in this order (width, lower bound) whatever the order of the fields
+        return Dependent(f"{mh[1]},{mh[2]}", lambda w, lo: IntRange(lo, lo + w))
     if k == "depListSize":
         return Dependent(mh[1], lambda n: ListSizeBetween(n, n))
     if k == "depVarFrom":
@@ -365,7 +372,8 @@ def random_ann(rng, ncls, abstract_ids, all_ids, depth, o):
         lo = rng.randint(0, 2)
         # the element type is mostly a class, sometimes itself a base, list, tuple or refined type
         inner = random_type(rng, ncls, abstract_ids, all_ids, 2 if rng.random() < 0.6 else 1, o)
-        return ("ann", ("list", inner), ("listSize", lo, lo + rng.randint(0, 2)))
+        hi = lo + rng.randint(0, 2)
+        return ("ann", ("list", inner), ("listSizeNoOps" if (lo + 2 * hi) % 4 == 1 else "listSize", lo, hi))
     if k == 4:
         lo = rng.randint(0, 2)
         return ("ann", "str", ("strSize", lo, lo + rng.randint(0, 2), rng.choice([["a"], ["a", "b"], ["a", "b", "c"]])))
